@@ -320,8 +320,8 @@ def ask(obj, s, kind):
         o = obj.filter_id(s, kind)
     except Exception as ex:  # "raises an error"
         return True, "", type(ex).__name__
-    if not isinstance(o, str):
-        return False, str(o), "non-str:" + type(o).__name__
+    if not isinstance(o, str):   # not a token at all: judged as the empty (invalid) token
+        return False, "", "non-str:" + type(o).__name__
     return False, o, ""
 
 
@@ -639,6 +639,49 @@ def parse_counterexample(out):
     return m_c[-1], m_k[-1], to_s([int(x) for x in m_i[-1].split(",") if x.strip()])
 
 
+class TlcJobs:
+    """Runs TLC jobs NCPU at a time in a helper process (reader threads inside this process would fight the harness for the GIL)."""
+
+    def __init__(self, ctx, jobs):
+        self.dir = ctx.scratch / "tlcjobs"
+        self.dir.mkdir(exist_ok=True)
+        (self.dir / "jobs.json").write_text(json.dumps({"scratch": str(ctx.scratch), "ncpu": tlc.NCPU, "jobs": [
+            {k: j[k] for k in ("name", "cfg", "workers", "constants")} for j in jobs]}))
+        self.proc = subprocess.Popen([sys.executable, "-m", "vf.props.c09", "--tlc-jobs", str(self.dir)], env=dict(os.environ),
+                                     stdout=subprocess.DEVNULL, stderr=open(self.dir / "stderr.txt", "w"))
+
+    def result(self, name):
+        import time
+        p = self.dir / (name + ".json")
+        while not p.exists():
+            if self.proc.poll() is not None and not p.exists():
+                raise MachineryFailure("TLC job runner ended without a result for %s: %s" % (name, (self.dir / "stderr.txt").read_text()[-2000:]))
+            time.sleep(0.05)
+        r = tlc.TlcResult()
+        r.__dict__.update(json.loads(p.read_text()))
+        p.unlink()
+        return r
+
+    def close(self):
+        self.proc.wait()
+
+
+def _tlc_jobs_main(d):
+    import concurrent.futures
+    import pathlib
+    d = pathlib.Path(d)
+    spec = json.loads((d / "jobs.json").read_text())
+
+    def one(j):
+        r = tlc.run_tlc(SPECS / "Stropping.tla", j["cfg"], spec["scratch"], workers=j["workers"], timeout=3000, xmx="2g", constants=j["constants"])
+        tmp = d / (j["name"] + ".tmp")
+        tmp.write_text(json.dumps(r.__dict__))
+        os.replace(tmp, d / (j["name"] + ".json"))
+
+    with concurrent.futures.ThreadPoolExecutor(max_workers=spec["ncpu"]) as ex:
+        list(ex.map(one, spec["jobs"]))
+
+
 def probe_reverify():
     """which I-layer variant describes this tree: is a failure handler's result re-verified before it is returned?"""
     for suffix, _, f in override_specs():
@@ -652,6 +695,7 @@ def _lap(ctx, label):
     import time
     now = time.time()
     ctx.cov.setdefault("timing_s", {})[label] = round(now - getattr(ctx, "_lap_t", ctx.t0), 1)
+    ctx.cov["timing_s"]["harness process cpu"] = round(time.process_time(), 1)
     ctx._lap_t = now
 
 
@@ -687,7 +731,7 @@ def code_to_spec_questions(ctx, cfgs, obs):
                 for k in kinds:
                     obs.add(cid, k, v, tag="reserved-variant")
         # every ASCII character alone, in second and in first position, every pool character
-        for ch in [chr(i) for i in range(1, 128)] + [chr(x) for x in POOL]:
+        for ch in [chr(i) for i in range(0, 128)] + [chr(x) for x in POOL]:
             for s in (ch, "a" + ch, ch + "a"):
                 obs.add(cid, "any", s, tag="single-char")
                 if cid.endswith(".default"):
@@ -733,11 +777,13 @@ def code_to_spec_questions(ctx, cfgs, obs):
 
 def run(ctx):
     import concurrent.futures
-    # deep (string-length) recursion of the spec's operators needs more than the default thread stack
-    os.environ.setdefault("JDK_JAVA_OPTIONS", "-Xss64m")
     cfgs = build_cfgs()
     check_patterns(ctx, cfgs)
     write_doc(ctx, cfgs)
+    import builtins
+    missing = sorted(set(dir(builtins)) - cfgs["py.default"].idset)
+    if missing:   # not a property violation ("reserved" is the configuration's notion), but the I-layer's picture of the Python language
+        ctx.drift("the Python configuration in force no longer reserves %d builtin names (e.g. %s)" % (len(missing), ", ".join(missing[:4])))
     reverify = probe_reverify()
     ctx.cov["i_layer_variant"] = "Reverify=%s (probed on the real code: is a failure handler's result re-verified?)" % reverify
     defaults = [cid for cid in cfgs if cid.endswith(".default")]
@@ -749,34 +795,29 @@ def run(ctx):
     # (default configuration, category) resp. per override configuration; (b) the same question asked twice; (c) controls.
     spec = SPECS / "Stropping.tla"
     jobs = []
+    # Emit evaluates the P-layer's GoodAnswer on the model's answer and prints it as `pok`; the harness requires pok of every terminal
+    # state of a sound configuration, which is the invariant IRefinesP without evaluating it twice.  PipeAgrees (the composed operator
+    # used by the trace spec = the stage machine) is checked on every override job and, in the thorough tier, everywhere.
     for cid in cfgs:
         if cid in defaults:
             for k in KINDS:
-                jobs.append({"cid": cid, "kinds": [k], "L": L0, "inv": INV + ["Emit"]})
+                jobs.append({"cid": cid, "kinds": [k], "L": L0, "inv": ctx.pick(["TypeOK", "Emit"], ["PipeAgrees", "TypeOK", "Emit"])})
         else:
-            jobs.append({"cid": cid, "kinds": KINDS, "L": L1, "inv": (INV if cid not in flawed else INV[1:]) + ["Emit"]})
+            jobs.append({"cid": cid, "kinds": KINDS, "L": L1, "inv": ["PipeAgrees", "TypeOK", "Emit"]})
 
-    def emit(job):
-        name = "emit_%s_%s" % (job["cid"].replace(".", "_"), "_".join(job["kinds"]) if len(job["kinds"]) == 1 else "allkinds")
-        r = tlc.run_tlc(spec, model_cfg(ctx, name, [job["cid"]], job["L"], reverify, False, job["inv"], job["kinds"]), ctx.scratch, workers=1,
-                        timeout=3000, xmx="2g", constants="%s kinds=%s |Alphabet|=%d MaxLen=%d Reverify=%s; invariants %s" % (
-                            job["cid"], ",".join(job["kinds"]), len(ALPHA), job["L"], reverify, ",".join(job["inv"])))
-        if r.violated == "IRefinesP":   # design finding: keep the counterexample, emit without that invariant
-            r2 = tlc.run_tlc(spec, model_cfg(ctx, name + "_x", [job["cid"]], job["L"], reverify, False, [i for i in job["inv"] if i != "IRefinesP"],
-                                             job["kinds"]), ctx.scratch, workers=1, timeout=3000, xmx="2g", constants=r.constants)
-            r2.refuted = parse_counterexample(r.out)
-            return job, r2
-        return job, r
-
-    pool = concurrent.futures.ThreadPoolExecutor(max_workers=tlc.NCPU)
-    futs = [pool.submit(emit, j) for j in jobs]
     Lr = ctx.pick(2, 3)
-    f_reask = pool.submit(tlc.run_tlc, spec, model_cfg(ctx, "m_reask", defaults, Lr, reverify, True, INV), ctx.scratch, workers=2, timeout=3000,
-                          constants="default configurations, MaxLen=%d, WithReask=TRUE" % Lr)
-    f_neg = f_pos = None
+    extra_jobs = [{"name": "m_reask", "cfg": str(model_cfg(ctx, "m_reask", defaults, Lr, reverify, True, INV)), "workers": 2,
+                   "constants": "default configurations, all kinds, MaxLen=%d, WithReask=TRUE; invariants %s" % (Lr, ",".join(INV))}]
     if flawed:
-        f_neg = pool.submit(tlc.run_tlc, spec, model_cfg(ctx, "m_flawed", flawed, 2, False, False, INV), ctx.scratch, workers=1, timeout=3000)
-        f_pos = pool.submit(tlc.run_tlc, spec, model_cfg(ctx, "m_reverify", flawed, 2, True, False, INV), ctx.scratch, workers=1, timeout=3000)
+        extra_jobs += [{"name": "m_flawed", "cfg": str(model_cfg(ctx, "m_flawed", flawed, 2, False, False, INV)), "workers": 1, "constants": ""},
+                       {"name": "m_reverify", "cfg": str(model_cfg(ctx, "m_reverify", flawed, 2, True, False, INV)), "workers": 1, "constants": ""}]
+    for j in jobs:
+        j["name"] = "emit_%s_%s" % (j["cid"].replace(".", "_"), "_".join(j["kinds"]) if len(j["kinds"]) == 1 else "allkinds")
+        j["cfg"] = str(model_cfg(ctx, j["name"], [j["cid"]], j["L"], reverify, False, j["inv"], j["kinds"]))
+        j["workers"] = 1
+        j["constants"] = "%s kinds=%s |Alphabet|=%d MaxLen=%d Reverify=%s; invariants %s" % (
+            j["cid"], ",".join(j["kinds"]), len(ALPHA), j["L"], reverify, ",".join(j["inv"]))
+    runner = TlcJobs(ctx, jobs + extra_jobs)
 
     # ---- code -> spec questions are put while TLC works
     n_rand = code_to_spec_questions(ctx, cfgs, obs)
@@ -788,14 +829,16 @@ def run(ctx):
         ctx.not_exercised("stage-level comparison (TokenEncoder internals not reachable): only end-to-end answers are compared")
     ncases = ndr = 0
     design = []
-    for fut in futs:
-        job, r = fut.result()
+    import time
+    t_wait = 0.0
+    for job in jobs:
+        t_w = time.time()
+        r = runner.result(job["name"])
+        t_wait += time.time() - t_w
         cid = job["cid"]
         if not r.ok:
             raise MachineryFailure("model run for %s %s failed: %s %s\n%s" % (cid, job["kinds"], r.error, r.violated, r.out[-2000:]))
         ctx.add_model(r, "Stropping %s %s" % (cid, ",".join(job["kinds"])))
-        if getattr(r, "refuted", None):
-            ctx.cov.setdefault("design_findings", []).append("I => P refuted by TLC for %r (replayed against the real code)" % (r.refuted,))
         cases = r.json_lines()
         if len(cases) != sum(len(ALPHA) ** n for n in range(1, job["L"] + 1)) * len(job["kinds"]):
             raise MachineryFailure("emission for %s gave %d cases" % (cid, len(cases)))
@@ -823,24 +866,38 @@ def run(ctx):
                          nontrivial=bool(case["err"] or case["out"] != case["inp"]))
         obs.maybe_flush()
     ctx.cov["spec_to_code_cases"] = ncases
+    ctx.cov.setdefault("timing_s", {})["(of which waiting for TLC)"] = round(t_wait, 1)
+    ctx.cov["timing_s"]["(slowest model job)"] = round(max(m["wall_s"] for m in ctx.cov["model_runs"]), 1)
+    unexpected = sorted(set(d["cfg"] for d in design) - set(flawed))
+    ctx.cov["model_I_refines_P"] = ("holds in every terminal state of %d configurations" % (len(cfgs) - len(set(d["cfg"] for d in design)))) + (
+        "; refuted in %s" % sorted(set(d["cfg"] for d in design)) if design else "")
+    if unexpected:
+        ctx.cov.setdefault("design_findings", []).append("I => P is refuted in configurations where it was expected to hold: %s" % unexpected)
     if design:
         ctx.cov.setdefault("design_findings", []).append(
             "%d terminal states of the model violate P, all in configurations %s (a failure handler's result is returned without being re-verified); "
             "each was replayed against the real code, e.g. %r" % (len(design), sorted(set(d["cfg"] for d in design)), design[0]))
     _lap(ctx, "model runs + replay of every terminal state")
-    r = f_reask.result()
-    if not r.ok:
+    # the configuration data is live, so a refuted invariant is a finding about the design under that data (the replayed executions above
+    # are what P judges), never a machinery failure; anything else TLC complains about is.
+    r = runner.result("m_reask")
+    if r.violated == "IRefinesP":
+        ctx.cov.setdefault("design_findings", []).append("m_reask: I => P refuted by TLC for %r" % (parse_counterexample(r.out),))
+    elif not r.ok:
         raise MachineryFailure("model Stropping/m_reask did not pass: %s %s\n%s" % (r.error, r.violated, r.out[-3000:]))
     ctx.add_model(r, "Stropping m_reask")
-    if f_neg is not None:
-        neg, pos = f_neg.result(), f_pos.result()
-        if neg.violated != "IRefinesP":
-            raise MachineryFailure("negative control: unverified handler results were not refuted (%s %s)" % (neg.error, neg.violated))
-        if not pos.ok:
-            raise MachineryFailure("the re-verifying variant of the design should satisfy P: %s %s\n%s" % (pos.error, pos.violated, pos.out[-2000:]))
-        ctx.cov["model_negative_control"] = ("configurations %s: Reverify=FALSE refuted by IRefinesP (counterexample %r), Reverify=TRUE passes (%d states)"
-                                             % (flawed, parse_counterexample(neg.out), pos.distinct))
-    pool.shutdown()
+    if flawed:
+        neg, pos = runner.result("m_flawed"), runner.result("m_reverify")
+        for x in (neg, pos):
+            if not x.ok and x.violated != "IRefinesP":
+                raise MachineryFailure("control run failed: %s %s\n%s" % (x.error, x.violated, x.out[-2000:]))
+        ctx.cov["model_negative_control"] = (
+            "configurations %s (added reserved names inside the space the c/c++ failure handlers map into): Reverify=FALSE %s; Reverify=TRUE %s"
+            % (flawed, "refuted by IRefinesP, counterexample %r" % (parse_counterexample(neg.out),) if neg.violated else "NOT refuted",
+               "passes (%d states)" % pos.distinct if pos.ok else "refuted too: %r" % (parse_counterexample(pos.out),)))
+        if not neg.violated:
+            ctx.not_exercised("negative control of the model: the design without re-verification of handler results was not refuted")
+    runner.close()
 
     # ---- everything still pending goes to the T-layer
     obs.flush()
@@ -938,7 +995,6 @@ def _cls_of(cid):
 
 
 def replay(ctx, case):
-    os.environ.setdefault("JDK_JAVA_OPTIONS", "-Xss64m")
     cid = case["cfg"]
     cfgs = {cid: Cfg(cid, case["lang"], _cls_of(cid), case.get("overrides") or {})}
     obs = Observer(ctx, cfgs, probe_reverify())
@@ -948,3 +1004,13 @@ def replay(ctx, case):
     for r in shown:
         for src, e, o in r["obs"]:
             print("  %s: %s" % (src, "error" if e else repr(o)))
+
+
+if __name__ == "__main__":
+    if len(sys.argv) == 3 and sys.argv[1] == "--tlc-jobs":
+        _tlc_jobs_main(sys.argv[2])
+    elif len(sys.argv) == 3 and sys.argv[1] == "--dump-cfgs":   # snapshot for running the specs by hand (STROP_CFGS=<file>)
+        _cfgs = build_cfgs()
+        with open(sys.argv[2], "w") as _f:
+            json.dump({"cfgs": {cid: c.doc() for cid, c in _cfgs.items()}, "cls": class_tables(()),
+                       "nfkc": [[c, cps(nfkc(chr(c)))] for c in ALPHA if c >= 128 and nfkc(chr(c)) != chr(c)]}, _f, separators=(",", ":"), sort_keys=True)
